@@ -86,6 +86,9 @@ type ReplayFile struct {
 	BaseSeed uint64 `json:"base_seed,omitempty"`
 	// OneCPU: the run was observed in a child pinned to one processor (runtime.NumCPU() == 1); replays do the same.
 	OneCPU bool `json:"one_cpu,omitempty"`
+	// Explore: a hand-written file (experiments): the configuration is run under its own seeded strategy instead of
+	// following a recorded schedule.
+	Explore bool `json:"explore,omitempty"`
 	// ReplayNote is set when the violation did not reproduce in every confirmation attempt.
 	ReplayNote string `json:"replay_note,omitempty"`
 }
